@@ -105,6 +105,8 @@ func (p *PredicatePartition) Percent() float64 {
 }
 
 func (p *PredicatePartition) String() string {
+	p.mu.RLock()
+	defer p.mu.RUnlock()
 	return fmt.Sprintf("PredicatePartition{name=%s, percent=%f, limit=%d, busy=%d}",
 		p.name, p.percent, p.limit, p.busy)
 }
